@@ -14,7 +14,7 @@ use serde::{Deserialize, Serialize};
 pub fn def() -> PropDef {
     PropDef {
         id: "C05",
-        rule: "generated histories (1..12 ops) on one encoder or decoder of every family x engine: reset to other counts / shard size / rate, complete rounds (result read or dropped unread), abandoned partial rounds, failing adds, failing resets, premature encode/decode, into_parts -> new(Some(work)) into another family and engine; half of the histories with the poison hook armed (every byte of working memory that survives a resize is replaced by seeded noise). oracle: at every encode/decode the calls made since the last reset / dropped result are replayed on a freshly constructed object of the current configuration; every call result and the output bytes must be identical. part long_life: one tiny encoder or decoder lives through 2..4 epochs of 0..3 / ~256 / ~512 / ~65536 cheap complete rounds, each followed by a real round compared with a fresh object (and with the originals), without any explicit reset (wrapping per-round counters and stamps). part reset_streaks: one object (first built for a larger configuration) goes through 1..4 streaks of 0..300 consecutive resets that cycle through 1..3 small configurations (with a cheap round after every reset, every few, or never; in a third of the streaks the steps are, or alternate with, into_parts -> new(Some(work)) of the next codec family), each streak followed by a real round compared with a fresh object and the originals (amortised shrinking / re-sizing decisions that count consecutive resets). part big_history: the same oracle on few, long shards (working spaces 1 MiB .. 256 MiB quick / 2 GiB thorough, log-uniform) with several rounds per object. non-trivial: >=2 completed rounds on the one object (the classes report how many of them had a configuration change, recycle, failed call or poison in between); distinct by full history",
+        rule: "generated histories (1..12 ops) on one encoder or decoder of every family x engine: reset to other counts / shard size / rate, complete rounds (result read or dropped unread), abandoned partial rounds, failing adds, failing resets, premature encode/decode, into_parts -> new(Some(work)) into another family and engine; half of the histories with the poison hook armed (every byte of working memory that survives a resize is replaced by seeded noise). oracle: at every encode/decode the calls made since the last reset / dropped result are replayed on a freshly constructed object of the current configuration; every call result and the output bytes must be identical. part long_life: one tiny encoder or decoder lives through 2..4 epochs of 0..3 / ~256 / ~512 / ~65536 cheap complete rounds, each followed by a real round compared with a fresh object (and with the originals), without any explicit reset (wrapping per-round counters and stamps). part reset_streaks: one object (first built for a larger configuration) goes through 1..4 streaks of 0..300 consecutive resets that cycle through 1..3 small configurations (with a cheap round after every reset, every few, or never; in a third of the streaks the steps are, or alternate with, into_parts -> new(Some(work)) of the next codec family; in three of eight every step is preceded by a failing add and/or a failing reset), each streak followed by a real round compared with a fresh object and the originals (amortised shrinking / re-sizing decisions that count consecutive resets). part big_history: the same oracle on few, long shards (working spaces 1 MiB .. 256 MiB quick / 2 GiB thorough, log-uniform) with several rounds per object. non-trivial: >=2 completed rounds on the one object (the classes report how many of them had a configuration change, recycle, failed call or poison in between); distinct by full history",
         assumptions: &[
             "an implementation does not carry knowledge about the *contents* of working memory across a resize (poison only overwrites the retained prefix, where real stale bytes live)",
             "shard contents are arbitrary bytes: the decoder is compared with a fresh decoder on the same inputs, consistency of the shards is not needed for this property",
@@ -360,6 +360,10 @@ pub struct Streak {
     /// default, high, low (engine kept); 2: resets and such recycles alternate. (ReedSolomon* has no into_parts: resets.)
     #[serde(default)]
     pub recycle: u8,
+    /// failing calls inside the streak: 0 none; 1 every step is preceded by an add of a shard with a wrong length;
+    /// 2 every step is preceded by a reset with an odd shard size; 3 both
+    #[serde(default)]
+    pub fails: u8,
 }
 
 #[derive(Clone, Debug, PartialEq, Eq, Hash, Serialize, Deserialize)]
@@ -388,8 +392,8 @@ pub fn streak_strategy(_t: Tier) -> BoxedStrategy<StreakCase> {
         6 => 1u32..=300,
         4 => (4u32..=8, 0u32..5).prop_map(|(a, d)| (1u32 << a) + d - 2),
     ];
-    let streak = (n, prop::collection::vec(small_cfg(), 1..=3), prop_oneof![3 => Just(0u8), 1 => Just(1u8), 1 => 2u8..=9], gen::recv_spec(), any::<u64>(), prop_oneof![4 => Just(0u8), 1 => Just(1u8), 1 => Just(2u8)])
-        .prop_map(|(n, cfgs, round_every, recv, seed, recycle)| Streak { n, cfgs, round_every, recv, seed, recycle });
+    let streak = (n, prop::collection::vec(small_cfg(), 1..=3), prop_oneof![3 => Just(0u8), 1 => Just(1u8), 1 => 2u8..=9], gen::recv_spec(), any::<u64>(), prop_oneof![4 => Just(0u8), 1 => Just(1u8), 1 => Just(2u8)], prop_oneof![5 => Just(0u8), 1 => Just(1u8), 1 => Just(2u8), 1 => Just(3u8)])
+        .prop_map(|(n, cfgs, round_every, recv, seed, recycle, fails)| Streak { n, cfgs, round_every, recv, seed, recycle, fails });
     (any::<bool>(), gen::kind_any()).prop_flat_map(move |(dec, kind)| {
         (any::<u8>(), init_cfg.clone(), prop::collection::vec(streak.clone(), 1..=4)).prop_map(move |(eraw, init, streaks)| {
             let fast: Vec<Eng> = [Eng::NoSimd, Eng::Ssse3, Eng::Avx2, Eng::Default].iter().copied().filter(|e| e.available()).collect();
@@ -418,6 +422,14 @@ pub fn run_streak(c: &StreakCase, st: &mut Stats, part: &str, truthful: bool) ->
         for i in 0..s.n {
             // the cycle is aligned so that the last reset of the streak lands on the last entry
             let cfg = s.cfgs[(i as usize + m - (s.n as usize % m)) % m];
+            if s.fails & 1 != 0 {
+                let out = obj.apply(&Call::AddO(0, vec![1u8; cur.2 + 2]))?;
+                ensure!(!out.is_ok(), "step #{resets}: a shard of {} bytes was accepted by an object configured for {} bytes", cur.2 + 2, cur.2);
+            }
+            if s.fails & 2 != 0 {
+                let out = obj.apply(&Call::Reset(cfg.0, cfg.1, cfg.2 + 1))?;
+                ensure!(!out.is_ok(), "step #{resets}: reset with the odd shard size {} succeeded", cfg.2 + 1);
+            }
             if kind != Kind::Rs && (s.recycle == 1 || (s.recycle == 2 && i % 2 == 1)) {
                 let next = match kind {
                     Kind::Default => Kind::High,
@@ -496,6 +508,7 @@ pub fn run_streak(c: &StreakCase, st: &mut Stats, part: &str, truthful: bool) ->
     st.classf("longest_streak_log2", 32 - longest.leading_zeros());
     st.classf("geometry_changed_by_last_reset", changed_at_end);
     st.classf("recycles_log2", 64 - recycles.leading_zeros());
+    st.classf("streak_with_failing_calls", c.streaks.iter().any(|s| s.fails != 0 && s.n >= 16));
     if longest >= 16 {
         st.nontrivial_case(part, c);
     }
